@@ -156,17 +156,20 @@ class RealSession:
 		for mod in self.modules.loaded():
 			if mod.path not in only:
 				continue
-			ep = mod.entrypoint
-			nodes = ep._Node__nodes
-			paths = list(nodes._Nodes__entries._EntryCache__entries.keys())
-			classes: dict[str, str] = {}
-			for p in paths:
-				try:
-					classes[p] = type(nodes.by(p)).__name__
-				except Exception as e:  # noqa: BLE001
-					classes[p] = canon(e)
-			syms = {k: (id(s), type(s).__name__, s.types.fullyname) for k, s in self.db.items(mod.path)}
-			snap[mod.path] = {'ep': id(ep), 'classes': classes, 'symbols': syms}
+			try:
+				ep = mod.entrypoint
+				nodes = ep._Node__nodes
+				paths = list(nodes._Nodes__entries._EntryCache__entries.keys())
+				classes: dict[str, str] = {}
+				for p in paths:
+					try:
+						classes[p] = type(nodes.by(p)).__name__
+					except Exception as e:  # noqa: BLE001
+						classes[p] = canon(e)
+				syms = {k: (id(s), type(s).__name__, s.types.fullyname) for k, s in self.db.items(mod.path)}
+				snap[mod.path] = {'ep': id(ep), 'classes': classes, 'symbols': syms}
+			except Exception as e:  # noqa: BLE001 - the real code raised while being observed: visible as a difference
+				snap[mod.path] = {'ep': 0, 'classes': {}, 'symbols': {}, 'error': canon(e)}
 		return snap
 
 
@@ -306,10 +309,12 @@ def prelude(ctx: Ctx) -> dict[str, Any]:
 		for lib in libs:
 			ses.modules.load(lib)
 		mods = []
+		named = {f'{libs[0]}#type': 'type', f'{libs[1]}#int': 'int'}
 		for mod in ses.modules.loaded():
 			imports = [i.import_path.tokens for i in mod.entrypoint.imports]
-			mods.append({'name': mod.path, 'imports': imports, 'keys': len(list(ses.db.items(mod.path)))})
-		_PRELUDE = {'libs': libs, 'mods': mods}
+			keys = [k for k, _ in ses.db.items(mod.path)]
+			mods.append({'name': mod.path, 'imports': imports, 'keys': len(keys), 'named': [named[k] for k in keys if k in named]})
+		_PRELUDE = {'libs': libs, 'mods': mods, 'std_method': [f'{libs[0]}#type', f'{libs[1]}#int'], 'std_var': [f'{libs[1]}#int']}
 	return _PRELUDE
 
 
@@ -318,7 +323,8 @@ def world_lines(ctx: Ctx, pool: list[dict[str, Any]]) -> list[str]:
 	lines = ['world']
 	for m in pre['mods']:
 		imps = ','.join(f'{d}:' for d in m['imports']) or '-'
-		lines.append('\t'.join(['mod', m['name'], '1', imps, '-', '-', str(m['keys'])]))
+		lines.append('\t'.join(['mod', m['name'], '1', imps, ';'.join(m['named']) or '-', '-', str(m['keys'] - len(m['named']))]))
+	lines.append('\t'.join(['std', ','.join(pre['std_method']), ','.join(pre['std_var'])]))
 	for mod in pool:
 		lines.append('\t'.join(['mod', mod['name'], *desc_tokens(mod), '0']))
 	lines.append('libs\t' + ','.join(pre['libs']))
@@ -343,8 +349,16 @@ def closure(pool_by_name: dict[str, dict[str, Any]], start: dict[str, Any]) -> s
 def gen_ops(rng: random.Random, pool: list[dict[str, Any]], n: int, p_bad: float, prelude_names: list[str]) -> list[list[Any]]:
 	names = [m['name'] for m in pool]
 	ops: list[list[Any]] = []
-	for _ in range(n):
+	while len(ops) < n:
 		r = rng.random()
+		if rng.random() < 0.08:
+			# a dependant is transpiled, one of its imports unloaded, the dependant transpiled again
+			users = [m for m in pool if any(d in names for d, _ in m['imports'])]
+			if users:
+				u = rng.choice(users)
+				d = rng.choice([d for d, _ in u['imports'] if d in names])
+				ops += [['transpile', u['name']], ['unload', d], ['transpile', u['name']]]
+				continue
 		target = rng.choice(names)
 		if rng.random() < p_bad * 0.15:
 			target = rng.choice(['app.zz', *prelude_names])
@@ -367,14 +381,20 @@ def run_session(ctx: Ctx, pool: list[dict[str, Any]], ops: list[list[Any]], proj
 	if proj is None:
 		proj = ctx.tmpdir('c04-proj-')
 		write_pool(proj, pool)
-	ses = RealSession(proj, ctx.tmpdir('c04-cache-'))
 	by_name = {m['name']: m for m in pool}
 	pre_names = {m['name'] for m in prelude(ctx)['mods']}
 	lines: list[str] = []
+	try:
+		ses = RealSession(proj, ctx.tmpdir('c04-cache-'))
+	except Exception as e:  # noqa: BLE001 - the property says a process can be set up: reported by the search
+		for op in ops:
+			lines.append('\t'.join(['resubmit', *desc_tokens(op[1])]) if op[0] == 'resubmit' else f'{op[0]}\t{op[1]}')
+		return {'proj': proj, 'lines': lines, 'real': [f'app-error:{canon(e)}'] * len(ops), 'results': [], 'frame_bad': [], 'crash': canon(e)}
 	real: list[str] = []
 	results: list[dict[str, Any]] = []
 	frame_bad: list[dict[str, Any]] = []
 	dirty: set[str] = set()
+	lines = []
 	cur_main: dict[str, Any] | None = None
 	for i, op in enumerate(ops):
 		kind = op[0]
@@ -467,6 +487,10 @@ def classify(r: dict[str, Any]) -> str:
 
 
 def compare_with_fresh(ctx: Ctx, res: SearchResult, case: dict[str, Any], run: dict[str, Any], seeds: list[str], seen: set[str]) -> None:
+	if run.get('crash'):
+		res.cases += 1
+		res.findings.append(Finding(key='app-construction', what=f"setting up the App / Interactive runner raised {run['crash']}", replay={'case': case}))
+		return
 	queries: dict[str, dict[str, Any]] = {}
 	for r in run['results']:
 		qid = query_id(r)
@@ -664,12 +688,12 @@ def search_runner(ctx: Ctx) -> SearchResult:
 			res.cases += 1
 			seen.add(f'{n}:{perm}')
 			outdir = ctx.tmpdir('c04-out-')
-			app = make_app(proj, ctx.tmpdir('c04-cache-'))
-			config = types.SimpleNamespace(force=True, profile=False, verbose=False, output_language='h', output_dirs=[outdir])
-			paths = ModulePaths([ModulePath(t, language='py') for t in perm])
-			runner = Runner(app.resolve(ISourceLoader), config, paths, app.resolve(Modules), app.resolve(ModuleMetaFactory), app.resolve(ITranspiler))
 			err = None
 			try:
+				app = make_app(proj, ctx.tmpdir('c04-cache-'))
+				config = types.SimpleNamespace(force=True, profile=False, verbose=False, output_language='h', output_dirs=[outdir])
+				paths = ModulePaths([ModulePath(t, language='py') for t in perm])
+				runner = Runner(app.resolve(ISourceLoader), config, paths, app.resolve(Modules), app.resolve(ModuleMetaFactory), app.resolve(ITranspiler))
 				runner.run()
 			except Exception as e:  # noqa: BLE001
 				err = canon(e)
@@ -706,6 +730,15 @@ ASSUMPTIONS: list[str] = []
 
 def run(ctx: Ctx) -> int:
 	proof = common.prove(ctx, PROP, leanchecker=ctx.thorough)
+	try:
+		prelude(ctx)
+	except common.InfraError:
+		raise
+	except Exception as e:  # noqa: BLE001 - the real code cannot even load its library modules in a fresh process
+		res = SearchResult('library modules load in a fresh process')
+		res.cases = 1
+		res.findings.append(Finding(key='library-load', what=f'loading the library modules in a fresh App raised {canon(e)}', replay={'exception': repr(e)}))
+		return common.finish(ctx, proof, [], [res], statements=STATEMENTS, partial=PARTIAL, assumptions=ASSUMPTIONS)
 	corpus = [norm_case(c) for c in corpus_cases()]
 	with ctx.timed('generate'):
 		valid = gen_cases(ctx, 'session', ctx.scale(8, 60), ctx.scale(12, 40), 0.15)
